@@ -107,7 +107,7 @@ theorem HWF.frame {s : St} {top : Nat → Nat} {h : Handle} (hw : HWF s top h) (
     (hn : s.nodes.length ≤ s'.nodes.length) (fa : FrameA top s.arrs s'.arrs) : HWF s' top h := by
   cases h with
   | ptr m => exact Nat.lt_of_lt_of_le hw hn
-  | list sl => exact ⟨fa.swf hw.1, hw.2⟩
+  | list sl => exact ⟨fa.swf hw.1, hw.2.1, hw.2.2.1, by rw [fa.view_eq sl hw.2.2.1]; exact hw.2.2.2⟩
   | _ => trivial
 
 /-- replace the array heap by a framed one -/
@@ -164,7 +164,7 @@ theorem raise_ge (top : Nat → Nat) (sl' : Slice) (a : Nat) : top a ≤ raise t
 
 /-- push a list handle -/
 theorem Inv.push_list {s : St} {top : Nat → Nat} (inv : Inv s top) (sl' : Slice) (w : SWF s.arrs sl')
-    (pos : 0 < sl'.len) (sf : Safe top sl')
+    (pos : 0 < sl'.len) (sf : Safe top sl') (nn : Handle.nil ∉ view s.arrs sl')
     (C : inMemo s (Handle.list sl') = false → ∀ (i : Nat) (e : Entry) (sl : Slice), s.pool[i]? = some e → Linear s e sl → sl.arr ≠ sl'.arr)
     (B : ∀ b ∈ s.bufs, b.cap ≠ 0 → b.arr ≠ sl'.arr) :
     Inv (s.push (Handle.list sl')) (raise top sl') := by
@@ -176,7 +176,7 @@ theorem Inv.push_list {s : St} {top : Nat → Nat} (inv : Inv s top) (sl' : Slic
     intro h hw
     cases h with
     | ptr m => exact hw
-    | list sl => exact ⟨hw.1, hw.2.1, Nat.le_trans hw.2.2 (raise_ge _ _ _)⟩
+    | list sl => exact ⟨hw.1, hw.2.1, Nat.le_trans hw.2.2.1 (raise_ge _ _ _), hw.2.2.2⟩
     | _ => trivial
   refine ⟨?_, inv.cellok, ?_, ?_, ?_, ?_, ?_, ?_⟩
   · intro a haa
@@ -188,7 +188,7 @@ theorem Inv.push_list {s : St} {top : Nat → Nat} (inv : Inv s top) (sl' : Slic
     rcases he with he | he
     · exact hmono (inv.pool e he)
     · subst he
-      exact ⟨w, pos, by simp only [raise, if_pos]; omega⟩
+      exact ⟨w, pos, by simp only [raise, if_pos]; omega, nn⟩
   · intro kv hkv; exact ⟨hmono (inv.memo kv hkv).1, (inv.memo kv hkv).2⟩
   · intro n tok sl p rp hn
     exact ⟨(inv.nodes n tok sl p rp hn).1, Nat.le_trans (inv.nodes n tok sl p rp hn).2 (raise_ge _ _ _)⟩
@@ -208,7 +208,7 @@ theorem Inv.push_list {s : St} {top : Nat → Nat} (inv : Inv s top) (sl' : Slic
         rw [hkv2] at hw
         intro hlt
         have := hs hlt
-        have h3 := hw.2.2
+        have h3 := hw.2.2.1
         simp only [raise]
         split
         · rename_i heq; rw [heq] at this ⊢; omega
